@@ -44,6 +44,9 @@ func ruleHelperShape(c *Ctx, r *Report, clause string, hs helperShape) {
 		switch x := ins.(type) {
 		case ssa.CallInstruction:
 			called[calleeName(x)] = true
+			if cf := x.Common().StaticCallee(); cf != nil && w.isNewFn(cf) {
+				break // a helper split off the reviewed body: its instructions are walked as part of it
+			}
 			if nm := calleeName(x); !allowed[nm] && nm != "builtin.len" && !strings.HasPrefix(nm, "infrastructure/logger.") && !exactSearchCall(nm) {
 				viol = fmt.Sprintf("%s: %s now consults %s; the rules that rely on it assume: %s", w.pos(x.Pos()), hs.Fn, nm, hs.Why)
 			}
